@@ -15,7 +15,8 @@ The probes (paths and values for `get_param` / `set_param`) are derived determin
 
 * run_impl(case)      real code: `get_params_tree(obj)`, then per probe `get_param(obj, path)` and
                       `set_param(obj, path, value)`; the re-created object is recorded as `to_json` text
-* request(case, rec)  JSON requests for the Lean driver (ops `params_keys`, `params_leaves`, `params_get`, `params_set`)
+* request(case, rec)  JSON requests for the Lean driver on the tree (ops `params_keys`, `params_leaves`);
+  probe_requests(...) the requests of one probe (`params_get`, `params_set`); run_model(case, rec, drv) asks them all
 * compare(...)        disagreement strings.  keys: the nested list, EXACT (bare key vs list, str vs int, order);
                       tree: exact with int / float / bool kept apart; get: value exact or the same exception class
                       (KeyError / IndexError / TypeError); set: the same exception class of the walk, otherwise the real
@@ -33,6 +34,7 @@ import copy
 import json
 import math
 import random
+import re
 from fractions import Fraction
 
 import eaopack as eao
@@ -46,25 +48,27 @@ NAME = 'params'
 M = 'EAO.Properties.C11Params'
 THEOREMS_C11_PARAMS = [
     (M, 'EAO.C11P.get_set_same',
-     'after a successful sett(o, p, v) on a path p that was readable before, get(o, p) returns v (any tree, negative list indices included)'),
+     'after a successful sett(o, p, v) on a path p that was readable before, get(o, p) returns v (any tree; negative list indices included)'),
     (M, 'EAO.C11P.get_set_new_key',
-     'setting a NEW dictionary key (last element of the path a string) succeeds and the key is readable afterwards with the value written'),
+     'a NEW string key under a readable dictionary (or the root dictionary): sett succeeds and the key reads back the value written'),
     (M, 'EAO.C11P.get_set_other',
-     'after sett on a readable path p every path q (readable or not) that is no prefix of p and has no prefix p - both with list positions counted from the front - gives exactly the same result as before, value or exception class'),
+     'after sett on a readable path p every path q - readable or not - that is no prefix of p and has no prefix p gives exactly the same result as before (value or exception class); list positions counted from the front in p and q'),
     (M, 'EAO.C11P.set_get_id',
-     'sett(o, p, get(o, p)) leaves the tree unchanged: the JSON handed to the loader is the JSON of the object'),
+     'sett(o, p, get(o, p)) leaves the tree unchanged (p readable, no step into a string): the JSON handed to the loader is the JSON of the object'),
+    (M, 'EAO.C11P.set_get_id_of_ok',
+     'without side condition: whenever sett(o, p, get(o, p)) succeeds the tree is unchanged'),
     (M, 'EAO.C11P.set_ok_iff_no_string_step',
      'on a readable path sett succeeds iff the walk never indexes into a string (get reads characters of strings, item assignment on them is a TypeError)'),
     (M, 'EAO.C11P.set_error_is_get_error',
-     'sett fails with the exception of the first failing look-up of the walk: same class as get on the path without its last element'),
+     'sett on q + [k] raises e iff reading the parent path q raises e, or the parent d is readable and d[k] = v raises e'),
     (M, 'EAO.C11P.keys_flat',
-     'the nested key list of make_dict (two levels per call, [k] + l_myk + l_ttk) read as paths is the one-level recursion leafPaths: all paths from the root to a scalar, in document order, for trees of any depth'),
+     'the nested key list of make_dict (two levels per call, [k] + l_myk + l_ttk) is the one-level recursion leafPaths - ALL paths from the root to a scalar, in document order, any depth - each written as bare key (one element) or list'),
     (M, 'EAO.C11P.keys_shape',
-     'a bare key is listed exactly for a scalar child of the root; every list entry has at least two elements'),
+     'a bare key k is listed iff [k] is a path to a scalar child of the root; a list entry is listed iff it is a path to a scalar and has at least two elements'),
     (M, 'EAO.C11P.keys_none_iff_scalar',
      'get_params_tree answers (None, None) exactly for a scalar root; otherwise the tree is returned unchanged'),
     (M, 'EAO.C11P.keys_are_valid',
-     'in a tree whose dictionaries have distinct keys every listed entry is readable with get and the value is a scalar (no list, no dictionary)'),
+     'in a tree whose dictionaries have distinct keys every listed entry is readable with get, the value is a scalar (no list, no dictionary), positions count from the front, no step into a string'),
     (M, 'EAO.C11P.keys_complete',
      'every scalar that get reaches on a path with list positions counted from the front and without indexing into a string is listed'),
     (M, 'EAO.C11P.containers_not_listed',
@@ -72,17 +76,23 @@ THEOREMS_C11_PARAMS = [
     (M, 'EAO.C11P.empty_container_witness',
      'machine-checked instance: {"assets": [], "name": "p"} lists only name; assets is readable and settable but not listed'),
     (M, 'EAO.C11P.keys_nodup',
-     'in a tree whose dictionaries have distinct keys no path is listed twice'),
+     'in a tree whose dictionaries have distinct keys no entry (and no path) is listed twice'),
     (M, 'EAO.C11P.keys_after_set_scalar',
-     'writing a scalar over a listed scalar does not change the key list'),
+     'writing a scalar over a scalar does not change the key list'),
     (M, 'EAO.C11P.set_param_same_tree',
-     'for every object tree and readable path without string step: set_param hands the loader exactly enc v again'),
-    (M, 'EAO.C11P.set_param_same_is_roundtrip',
-     'with the schema theorem roundtrip_of_schema: set_param(obj, p, get_param(obj, p)) = dec (enc obj) = obj for every valid object tree over classes satisfying RoundTripOK'),
+     'for every object tree and readable path without string step: set_param with the value read hands the loader exactly enc v again'),
     (M, 'EAO.C11P.set_param_is_load_of_set_tree',
-     'set_param = loader after sett: errors of the walk pass unchanged (they are raised before the try), a loader failure is the ValueError'),
+     'set_param = loader after sett: exceptions of the walk pass unchanged (raised before the try), an accepted tree gives the decoded object, a rejected one the exception of the except branch'),
+    (M, 'EAO.C11P.set_param_same_is_roundtrip',
+     'with EAO.C11.roundtrip_of_schema: set_param(obj, p, get_param(obj, p)) = dec (enc obj) = obj for every valid object tree over classes satisfying RoundTripOK'),
+    (M, 'EAO.C11P.set_param_listed_is_roundtrip',
+     'the same for every entry of the key list of get_params_tree, without side condition on the path (dictionaries with distinct keys)'),
+    (M, 'EAO.C11P.set_param_same_is_roundtrip_generated',
+     'the same over the class table regenerated from the sources'),
     (M, 'EAO.C11P.int_key_on_dict_witness',
-     'machine-checked instance of the quirk: sett with an integer key on a dictionary succeeds and json.dumps writes it as the decimal string key'),
+     'machine-checked instance of the quirk: sett with an integer key on a dictionary succeeds, json.dumps writes the decimal string key; readable under the string, KeyError under the integer'),
+    (M, 'EAO.C11P.name_type_error_witness',
+     'machine-checked instance: the except branch of set_param raises TypeError instead of ValueError when name is no string / the root is a list containing "name"'),
 ]
 
 
@@ -268,13 +278,12 @@ def _static_objects():
     pf1 = eao.portfolio.Portfolio([sc, st])
     pf2 = eao.portfolio.Portfolio([sc])
     pf2.set_timegrid(tg)
-    ob = eao.assets.OrderBook(name='ob', nodes=n1, orders=[])
+    ob = eao.assets.OrderBook(name='ob', nodes=n1, orders={'start': [], 'end': [], 'capa': [], 'price': []})
     mc = eao.assets.MultiCommodityContract(name='mc', nodes=[n1, n2], min_cap=0, max_cap=1, factors_commodities=[1, -0.5])
     return {'node': n1, 'node_unit': n2, 'unit': eao.Unit(), 'timegrid': tg, 'asset': eao.assets.Asset(name='plain'),
             'simple': sc, 'storage': st, 'empty_portfolio': pf0, 'portfolio': pf1, 'portfolio_grid': pf2,
             'orderbook_empty': ob, 'multi': mc,
-            'structured': eao.portfolio.StructuredAsset(name='sa', nodes=n1, portfolio=pf1),
-            'structured_empty': None}
+            'structured': eao.portfolio.StructuredAsset(name='sa', nodes=n1, portfolio=pf1)}
 
 
 STATIC_NAMES = ['node', 'node_unit', 'unit', 'timegrid', 'asset', 'simple', 'storage', 'empty_portfolio', 'portfolio',
@@ -329,6 +338,8 @@ def py_get(t, path):
 
 def gen_value(rnd, tree, leaves):
     r = rnd.random()
+    if r < 0.04:
+        return {'__class__': 'no_such_class'}          # the loader rejects it: the `except` branch of set_param
     if r < 0.45:
         return gen_scalar(rnd)
     if r < 0.6:
@@ -387,10 +398,10 @@ def make_probes(rnd, tree, keys, stream):
     probes = []
     ng, nm = (6, 8) if stream != 'tree' else (5, 7)
     pool = listed or [[]]
-    for _ in range(ng):                                # listed paths: read, write the same value, write another
+    for _ in range(ng if listed else 0):               # listed paths: read, write the same value, write another
         p = rnd.choice(pool)
         probes.append({'path': p, 'kind': 'listed', 'same': True})
-    for _ in range(3):
+    for _ in range(3 if listed else 0):
         p = rnd.choice(pool)
         probes.append({'path': p, 'kind': 'listed-new', 'value': gen_value(rnd, tree, leaves)})
     for e in (keys or []):                             # a bare key handed over as such (not wrapped in a list)
@@ -412,8 +423,12 @@ def make_probes(rnd, tree, keys, stream):
 
 
 # ------------------------------------------------------------------ the real code
+_ADDR = re.compile(r' at 0x[0-9a-fA-F]+')
+
+
 def _to_json(o):
-    return ser.to_json(o)
+    # (a value without JSON form that ends up in a string parameter is written as its repr: memory addresses masked)
+    return _ADDR.sub(' at 0x', ser.to_json(o))
 
 
 def run_impl(case):
@@ -559,17 +574,7 @@ def compare(case, rec, model):
             if s != ('err', ms['err']):
                 dis.append('%s: set_param %s, model raises %s in the walk' % (tag, s[1] if s[0] == 'err' else 'returned', ms['err']))
             continue
-        if case['stream'] == 'tree':
-            if s[0] != 'ok':
-                dis.append('%s: set_param raised %s, model returns a tree' % (tag, s[1]))
-            else:
-                try:
-                    if not same_tree(enc_tree(s[1]), ms['tree']):
-                        dis.append('%s: tree after set_param differs: %s' % (tag, first_diff(enc_tree(s[1]), ms['tree'])))
-                except Unsupported as e:
-                    dis.append('%s: result not a JSON tree: %s' % (tag, e))
-            continue
-        # real objects: the real loader on the model's tree
+        # the real loader on the model's tree
         try:
             with Quiet():
                 ref = _to_json(ser.load_from_json(json.dumps(dec_tree(ms['tree']))))
@@ -577,10 +582,17 @@ def compare(case, rec, model):
         except Exception as e:
             ref, ref_err = None, exc_name(e)
         if ref_err is not None:
-            if s != ('err', 'ValueError'):
-                dis.append('%s: loader fails on the model tree (%s) but set_param %s' % (tag, ref_err, 'returned' if s[0] == 'ok' else 'raised ' + s[1]))
+            if s != ('err', ms['on_load_failure']):
+                dis.append('%s: loader fails on the model tree (%s; model: set_param raises %s) but set_param %s' %
+                           (tag, ref_err, ms['on_load_failure'], 'returned' if s[0] == 'ok' else 'raised ' + s[1]))
         elif s[0] != 'ok':
             dis.append('%s: set_param raised %s, the loader accepts the model tree' % (tag, s[1]))
+        elif case['stream'] == 'tree':                   # the loader is the identity on plain trees: the result IS the tree of sett
+            try:
+                if not same_tree(enc_tree(s[1]), ms['tree']):
+                    dis.append('%s: tree after set_param differs: %s' % (tag, first_diff(enc_tree(s[1]), ms['tree'])))
+            except Unsupported as e:
+                dis.append('%s: result not a JSON tree: %s' % (tag, e))
         elif s[1] != ref:
             dis.append('%s: object of set_param differs from the loader applied to the model tree' % tag)
     return dis
@@ -735,6 +747,15 @@ def _classes_in(t):
     elif isinstance(t, list):
         for v in t:
             yield from _classes_in(v)
+
+
+def scenarios(seed, tier):
+    """(case id, case) for a property module: the corner cases, then generated cases of all streams"""
+    for j, c in enumerate(corner_cases()):
+        yield 'params_corner%d' % j, c
+    rnd = random.Random(seed * 15485863 + 4111)
+    for i in range(120 if tier == 'quick' else 900):
+        yield 'params%d' % i, gen_case(random.Random(rnd.getrandbits(48)), i)
 
 
 def corner_cases():
